@@ -314,6 +314,18 @@ pub fn seed_info_v4(g: G) -> SecSet {
     s
 }
 
+/// The DWARF 4 unit of `seed_info_v4` as the SECOND unit of .debug_info (behind a one-entry
+/// unit): unit-relative references are then added to a non-zero unit offset.
+pub fn seed_info_v4_second(g: G) -> SecSet {
+    let mut s = seed_info_v4(g);
+    let mut b = e(g);
+    b.uleb(4).offset(1, g.f64_).u8(4).u8(5);
+    let mut first = unit_header(g, 4, 0, &b, 0, |_| {}).buf;
+    first.extend_from_slice(&s.info);
+    s.info = first;
+    s
+}
+
 /// DWARF 5 CU using the indexed forms and their tables.
 pub fn seed_info_v5(g: G) -> SecSet {
     let mut s = SecSet::default();
@@ -1028,6 +1040,7 @@ pub fn seeds() -> Vec<SeedDef> {
         SeedDef { name: "cu_index-v2", primary: 17, gen: |g| seed_index(g, true) },
         SeedDef { name: "cu_index-v5-full-table", primary: 17, gen: |g| seed_index_full(g, false) },
         SeedDef { name: "cu_index-v2-full-table", primary: 17, gen: |g| seed_index_full(g, true) },
+        SeedDef { name: "info-v4-second-unit", primary: 1, gen: |g| seed_info_v4_second(g) },
         SeedDef { name: "debug_frame-v1", primary: 19, gen: |g| seed_debug_frame(g, 1) },
         SeedDef { name: "debug_frame-v4", primary: 19, gen: |g| seed_debug_frame(g, 4) },
         SeedDef { name: "debug_frame-v4-zR", primary: 19, gen: |g| seed_debug_frame_aug(g, 4, true) },
